@@ -224,8 +224,11 @@ def run(ctx):
                 if st['newline_only'] or st['tricky_comments'] or st['crlf']:
                     nontrivial.add(v)
                 same = (a.get('r') == a0.get('r')) and (a.get('css') == a0.get('css')) and (a.get('cls') == a0.get('cls'))
+                if a0.get('r') == 'timeout' and a.get('r') == 'timeout':
+                    agg['both_time_out_skipped'] = agg.get('both_time_out_skipped', 0) + 1      # a termination matter (C20), not a layout one
+                    continue
                 if a.get('r') in ('escaped', 'timeout') or a0.get('r') in ('escaped', 'timeout'):
-                    same = same and False
+                    same = False
                 if not same:
                     out['spec_mismatch'].append({'input': {'text': v, 'base': p['base'], 'opts': p['opts']}, 'impl': a, 'spec': {'same as base layout': a0}, 'classes': []})
                 elif a.get('r') == 'ok' and MARK in a['css']:
